@@ -357,8 +357,15 @@ def rand_scene(r, T=(6, 14), shape=(4, 9), pml=(2, 3), bloch=False, p_nonuniform
     spec["materials"] = mats
     inner = inner_region(shp, faces)
     srcs = []
+    # plane sources are rejected by the library on anisotropic arrays: keep them to all-isotropic scenes
+    if mats["mode"] == "random":
+        all_iso = all(mats.get(k) in (None, "iso") for k in ("eps_tier", "mu_tier", "sigma_e_tier", "sigma_h_tier"))
+    else:
+        all_iso = all(not isinstance(v, (list, tuple)) for o in mats.get("objects", []) for v in o.get("material", {}).values() if not isinstance(v, dict))
     for i in range(int(r.integers(n_sources[0], n_sources[1] + 1))):
         k = choice(r, list(source_kinds))
+        if not all_iso:
+            k = "dipole" if "dipole" in source_kinds else k
         if k == "dipole":
             srcs.append(rand_dipole(r, f"s{i}", shp, inner, Tn, allow_switch=switches))
         else:
